@@ -861,6 +861,30 @@ func liveServer() {
 					}(v)
 				}
 			}
+			// well-formed, correctly signed logins whose other fields take extreme values: accepted or refused,
+			// but the peer is answered and other sessions are not affected (an unrecovered panic in the server
+			// would end this process: the ./check wrapper reports that as a violation with the crashing frame)
+			for _, pc := range []int{-1 << 62, -1 << 31, -65536, -100, -11, -10, -1, 0, 1, 1 << 31, 1 << 62} {
+				for _, ts := range []int64{0, -1, 1 << 62} {
+					wg.Add(1)
+					go func(pc int, ts int64) {
+						defer wg.Done()
+						p, err := h.DialPeer(h.PeerOpts{ServerPort: port, TCPMux: mux, Token: "t17", PoolCount: pc, MutateLogin: func(l *msg.Login) {
+							if ts != 0 {
+								l.Timestamp, l.PrivilegeKey = ts, h.AuthKey("t17", ts)
+							}
+							l.Metas = map[string]string{"": "", "k": strings.Repeat("v", 2000)}
+						}})
+						run.Count("live_extreme_logins", 1)
+						if err != nil {
+							run.Violation("well-formed-login-with-extreme-field-not-answered", "tcpMux=%v pool_count=%d timestamp=%d: no LoginResp: %v", mux, pc, ts, err)
+							return
+						}
+						run.Distinct(fmt.Sprintf("live-login|%v|%d|%d|%v", mux, pc, ts, p.LoggedIn()))
+						p.Close()
+					}(pc, ts)
+				}
+			}
 			// honest traffic while the barrage runs
 			stop := make(chan struct{})
 			var hw sync.WaitGroup
